@@ -1,0 +1,17 @@
+//go:build verif
+// +build verif
+
+package utility
+
+import "os"
+
+// Package consensus/ticker calls GetTime() from a package-level initialiser,
+// i.e. before any main() can call VerifDisableNTP. With VERIF_DISABLE_NTP set
+// in the environment the NTP offset is marked initialised at package init of
+// utility (which every importer depends on), so offline harnesses that link
+// consensus/logical do not block. Compiled only with -tags verif.
+func init() {
+	if os.Getenv("VERIF_DISABLE_NTP") != "" {
+		VerifDisableNTP()
+	}
+}
